@@ -22,6 +22,9 @@ ATOMS = [
     ("assign", "{n} = 1"), ("annassign", "{n}: int = 1"), ("augassign", "{n} = 0\n{n} += 1"), ("tuple-target", "({n}, c) = (1, 2)"),
     ("starred-in-tuple", "c, *{n} = [1, 2]"), ("starred-in-paren-tuple", "(c, *{n}) = [1, 2]"), ("for-starred", "for c, *{n} in [[1, 2]]:\n    pass"),
     ("with-starred", "with open('f') as (c, *{n}):\n    pass"),
+    ("walrus-comp-value", "(c := [{n} for {n} in []])"), ("walrus-nested", "(c := ({n} := 1))"), ("walrus-genexp-value", "(c := list({n} for {n} in []))"),
+    ("multiline-list", "{n} = [\n    1,\n    2,\n]"), ("multiline-call", "{n} = max(\n    1,\n    2)"), ("multiline-backslash", "{n} = 1 + \\\n    2"),
+    ("multiline-string", "{n} = \"\"\"x\ny\"\"\""),
     ("star-target", "[{n}, *c] = [1, 2]"), ("starred-name", "[c, *{n}] = [1, 2]"), ("for", "for {n} in []:\n    pass"),
     ("for-tuple", "for ({n}, c) in []:\n    pass"), ("for-else", "for c in []:\n    pass\nelse:\n    {n} = 1"),
     ("with", "with open('f') as {n}:\n    pass"), ("with-tuple", "with open('f') as ({n}, c):\n    pass"),
@@ -95,7 +98,7 @@ def make_program(chain, atom_src, outer, params, use):
 class C15(Check):
     pid = "C15"
     level = "exploration"
-    rule = ("cases = (scope chain in 19 chains of function/class nesting to depth 3 incl. methods decorated with @property/@staticmethod, binding atom in 60 constructs binding name a, "
+    rule = ("cases = (scope chain in 19 chains of function/class nesting to depth 3 incl. methods decorated with @property/@staticmethod, binding atom in 67 constructs binding name a, "
             "names bound by the enclosing levels in {none, a, b, a+b} uniformly, or independently {none, a+b} per level, parameter "
             "list of the innermost function in 10 kinds, a trailing statement reading a, b and c); programs that CPython rejects "
             "are dropped; evaluations = sub-checks per program: scope tree (kinds and line extents), owned names per scope, "
@@ -353,6 +356,10 @@ class C15(Check):
                 body = rsc.node.body if not isinstance(rsc.node, ast.Module) else rsc.node.body
                 for st in body:
                     stmts_holder[st.lineno] = rsc
+                    # continuation lines of a simple statement belong to the same scope
+                    if not hasattr(st, "body"):
+                        for ln in range(st.lineno + 1, st.end_lineno + 1):
+                            stmts_holder[ln] = rsc
             for lineno, rsc in sorted(stmts_holder.items()):
                 res["n"] += 1
                 try:
